@@ -94,6 +94,7 @@ pub struct World<T: E> {
   iters: Vec<Option<It<T>>>,
   ishadow: Vec<Option<std::collections::VecDeque<i64>>>,
   irange: Vec<Option<(usize, usize)>>,
+  iscript: Vec<Option<String>>,
   shadow_ok: bool,
   pub out: String,
   mon: Vec<String>,
@@ -140,6 +141,7 @@ impl<T: E> World<T> {
       iters: vec![],
       ishadow: vec![],
       irange: vec![],
+      iscript: vec![],
       shadow_ok: true,
       out: String::new(),
       mon: vec![],
@@ -159,6 +161,7 @@ impl<T: E> World<T> {
       self.iters.push(None);
       self.ishadow.push(None);
       self.irange.push(None);
+      self.iscript.push(None);
     }
   }
   fn put(&mut self, v: usize, mv: MiniVec<T>, sh: Vec<i64>) {
@@ -404,7 +407,16 @@ impl<T: E> World<T> {
         }
       }
       "push" | "insert" | "extslice" | "extend" | "extwithin" | "append" | "resize" | "resizewith" | "pop" | "remove"
-      | "swaprm" | "trunc" | "clear" | "retain" | "dedup" | "dedupby" | "dedupkey" | "rmitem" => Some(n(1)),
+      | "swaprm" | "trunc" | "clear" | "retain" | "dedup" | "dedupby" | "dedupkey" | "rmitem" | "splitoff" | "drain"
+      | "splice" | "shrinkto" | "index" | "slice" => Some(n(1)),
+      _ => None,
+    };
+    // C11: what a rejected call must leave untouched
+    let pre_ids: Option<Vec<u32>> = match target {
+      Some(v) if name != "dropit" && v < self.vecs.len() && self.vecs[v].is_some() && !self.borrowed[v] => {
+        let mv = self.vref(v);
+        if mv.len() <= mv.capacity() { Some(mv.iter().map(|x| x.id()).collect()) } else { None }
+      }
       _ => None,
     };
     let pre: Option<(usize, usize, usize)> = match target {
@@ -636,8 +648,12 @@ impl<T: E> World<T> {
         let at = self.arg(t(3), a);
         let src = self.vref(a);
         let len_before = src.len();
+        let so_should_panic = at > len_before;
         match lib(|| src.split_off(at)) {
           Ok(mv) => {
+            if so_should_panic {
+              self.monitor("accepted_out_of_range:splitoff".into());
+            }
             let tail = match self.shadow[a].as_mut() {
               Some(s) if at <= s.len() => s.split_off(at),
               _ => vec![],
@@ -1255,6 +1271,7 @@ impl<T: E> World<T> {
             self.iters[i] = Some(it);
             self.borrowed[v] = true;
             self.ishadow[i] = None;
+            self.iscript[i] = Some(t(3).to_string());
           }
           Err(_) => out = "panic",
         }
@@ -1428,8 +1445,15 @@ impl<T: E> World<T> {
               }
               _ => self.shadow[v] = None,
             }
+          } else if name == "dropit" && r.is_ok() && kind == 2 && self.shadow_ok && self.iscript[i].as_deref().map_or(false, |x| !x.contains('P')) {
+            // drain_filter: the predicate is asked once per element, in order; the answers come from the
+            // script (false once it is exhausted): what stays is exactly the elements answered false
+            let mut sc = Script::new(self.iscript[i].as_deref().unwrap_or("-"));
+            if let Some(sh) = self.shadow[v].as_mut() {
+              sh.retain(|_| sc.next(b'F') != b'T');
+            }
           } else {
-            // forget / panic / filter: re-read what is there (the model comparison judges it)
+            // forget / panic: re-read what is there (the model comparison judges it)
             let mv = self.vref(v);
             if mv.len() <= mv.capacity() && name == "dropit" && r.is_ok() {
               self.shadow[v] = Some(mv.iter().map(|x| x.pay()).collect());
@@ -1444,7 +1468,22 @@ impl<T: E> World<T> {
         out = "unknown";
       }
     }
-    if let (Some(v), Some((p0, c0, _l0))) = (target, pre) {
+    if let (Some(v), Some((p0, c0, l0)), Some(ids0)) = (target, pre, pre_ids.as_ref()) {
+      let guarded = matches!(name, "insert" | "remove" | "swaprm" | "splitoff" | "drain" | "splice" | "extwithin" | "shrinkto" | "index" | "slice");
+      if out == "panic" && guarded && lg().drop_panics.is_empty() && lg().clone_panics.is_empty()
+        && v < self.vecs.len() && self.vecs[v].is_some() && !self.borrowed[v]
+      {
+        let mv = self.vref(v);
+        let same = mv.as_ptr() as usize == p0 && mv.capacity() == c0 && mv.len() == l0
+          && mv.len() <= mv.capacity() && mv.iter().map(|x| x.id()).eq(ids0.iter().cloned());
+        if !same {
+          self.monitor(format!("changed_by_rejected_call:{}", name));
+        }
+      }
+    }
+    let stability_op = matches!(name, "dropit" | "push" | "insert" | "extslice" | "extend" | "extwithin" | "append" | "resize" | "resizewith" | "pop"
+      | "remove" | "swaprm" | "trunc" | "clear" | "retain" | "dedup" | "dedupby" | "dedupkey" | "rmitem" | "drain" | "splice");
+    if let (Some(v), Some((p0, c0, _l0)), true) = (target, pre, stability_op) {
       if out == "ok" && v < self.vecs.len() && self.vecs[v].is_some() && !self.borrowed[v] {
         let mv = self.vref(v);
         let (p1, c1, l1) = (mv.as_ptr() as usize, mv.capacity(), mv.len());
